@@ -79,6 +79,10 @@ var c17Hand = []string{
 	"MUSTFAIL{% from 'lib' import nosuch %}never called",
 	"MUSTFAIL{% import 'nolib' as L %}never used",
 	"MUSTFAIL{% for i in 1..3 %}{{ i }}{% include 'nolib' %}{% endfor %}",
+	// what cannot be searched cannot be searched, whether the question is "in" or "not in"
+	"MUSTFAIL{{ 1 in 5 }}", "MUSTFAIL{{ 1 not in 5 }}", "MUSTFAIL{% if 'a' not in n %}x{% endif %}", "MUSTFAIL{% set q = s not in t %}", "MUSTFAIL{{ (n not in 7) ? 'y' : 'n' }}", "MUSTFAIL{% for i in arr if i not in 2 %}x{% endfor %}",
+	// values of more than a megabyte: a print, a section, a capture hand them to the writer like any other
+	"pre{{ huge }}mid{{ huge }}post", "{% filter up %}x{{ huge }}{% endfilter %}y", "{% set c %}{{ huge }}{% endset %}a{{ c }}b",
 	"MUSTFAIL{{ (0 - 1e300)..1e300 }}", "MUSTFAIL{% for i in 0..(10 ** 30) %}x{% endfor %}", "MUSTFAIL{% set r = 1..99999999999999999999 %}", "MUSTFAIL{{ big..nbig }}", "MUSTFAIL{{ 0..'1e300' }}",
 }
 
@@ -113,6 +117,9 @@ func (p *c17) sources(i int) (map[string]string, string, map[string]stick.Value,
 		src := c17Aux()
 		src["main"] = strings.TrimPrefix(c17Hand[i], "MUSTFAIL")
 		ctx["big"], ctx["nbig"] = uint64(math.MaxUint64), -1e300
+		if strings.Contains(src["main"], "huge") {
+			ctx["huge"] = strings.Repeat("0123456789abcdef", 3<<15+1)
+		}
 		return src, "main", ctx, nil
 	case i == len(c17Hand):
 		return c17Aux(), "child", ctx, nil
